@@ -35,6 +35,8 @@ type Cfg struct {
 	TimerP    float64       `json:"timer_p"`
 	MaxConsec int           `json:"max_consec"`
 	SchedSeed uint64        `json:"sched_seed"`
+	PCT         int     `json:"pct"`
+	PCTSteps    int     `json:"pct_steps"`
 }
 
 type H struct{}
@@ -50,6 +52,9 @@ func (H) Gen(p string, seed uint64, tier string) *hx.Case {
 	t := &ledger.Tx{Ver: uint32(r.Range(1, 2)), Lock: uint32(r.Intn(3)) * 500000}
 	cfg := Cfg{Clients: r.Range(1, 8), MaxConsec: []int{20, 200, 2000}[r.Intn(3)], SchedSeed: r.U64()}
 	cfg.YieldP = []float64{0, 0.1, 0.3, 0.6}[r.Intn(4)]
+	if r.Chance(0.3) {
+		cfg.PCT, cfg.PCTSteps = r.Range(1, 4), []int{50, 300, 2000, 10000}[r.Intn(4)]
+	}
 	kinds := []int{ledger.KP2PKH, ledger.KP2WPKH, ledger.KP2TR, ledger.KP2SHWPKH}
 	for i := 0; i < nin; i++ {
 		var op ledger.OutPoint
@@ -193,7 +198,7 @@ func (H) Run(t *testing.T, c *hx.Case) *hx.Outcome {
 		return out
 	}
 	results := make([][]result, cfg.Clients)
-	res := simrt.Run(simrt.Config{Seed: cfg.SchedSeed, YieldP: cfg.YieldP, TimerP: cfg.TimerP, MaxConsec: cfg.MaxConsec, StepBudget: 5_000_000}, func() {
+	res := simrt.Run(simrt.Config{Seed: cfg.SchedSeed, YieldP: cfg.YieldP, TimerP: cfg.TimerP, MaxConsec: cfg.MaxConsec, PCT: cfg.PCT, PCTSteps: cfg.PCTSteps, StepBudget: 5_000_000}, func() {
 		var wg simsync.WaitGroup
 		for cl := 0; cl < cfg.Clients; cl++ {
 			cl := cl
